@@ -1,7 +1,9 @@
 #!/usr/bin/env python3
 """Confirm a seeded change and run the checks against it.
 
-  eval_mutant.py <deliver_dir> <a|b> <property> [extra properties...]
+  eval_mutant.py <deliver_dir> <a|b> <property> [extra properties...]      both phases
+  eval_mutant.py --confirm-only [--slot N] <deliver_dir> <a|b> <property>  phase 1 only (parallelisable: own worktree / target dir per slot)
+  eval_mutant.py --check-only <property>-<a|b> [properties...]              phase 2 only (serial: patches /repo, runs ./check, restores)
 
 1. scratch worktree of /repo under /tmp: the change applies, the repository's 532 tests still pass
    with it, the demonstration test fails with it and passes without it;
@@ -15,23 +17,62 @@ def sh(cmd, cwd=None, timeout=3600):
     r = subprocess.run(cmd, shell=True, cwd=cwd, stdout=subprocess.PIPE, stderr=subprocess.STDOUT, text=True, timeout=timeout)
     return r.returncode, r.stdout
 
+def run_checks(out, meta, props):
+    diff = out + "/patch.diff"
+    rc, o = sh("git -C /repo status --porcelain --untracked-files=no")
+    if o.strip():
+        print("refusing: /repo has local modifications:\n" + o); sys.exit(2)
+    rc, o = sh("git -C /repo apply %s" % diff)
+    if rc != 0:
+        print("does not apply to /repo: " + o); sys.exit(2)
+    results = meta.get("checks", {})
+    try:
+        for p in props:
+            t0 = time.time()
+            rc, o = sh("./check %s --tier quick" % p, cwd="/verif", timeout=3000)
+            viol = [l for l in o.splitlines() if l.startswith("VIOLATION") or l.strip().startswith("observation")]
+            results[p] = {"exit": rc, "detected": rc == 1, "wall_s": round(time.time() - t0, 1), "lines": [l[:300] for l in viol[:12]]}
+            meta["ran"].append("./check %s --tier quick with the change applied to /repo: exit %d" % (p, rc))
+    finally:
+        sh("git -C /repo checkout -- .")
+    meta["checks"] = results
+    meta["detected_by"] = [p for p, r in results.items() if r["detected"]]
+
 def main():
-    deliver, letter, prop = sys.argv[1], sys.argv[2], sys.argv[3]
-    extra = sys.argv[4:]
+    args = sys.argv[1:]
+    if args[0] == "--check-only":
+        out = "/verif/seeded/%s" % args[1]
+        meta = json.load(open(out + "/meta.json"))
+        if not meta.get("confirmed"):
+            print("not confirmed"); sys.exit(2)
+        run_checks(out, meta, args[2:] or [meta["property"]])
+        json.dump(meta, open(out + "/meta.json", "w"), indent=1)
+        print(json.dumps({"id": meta["id"], "detected_by": meta["detected_by"], "checks": {p: (r["exit"], r["lines"][:4]) for p, r in meta["checks"].items()}}, indent=1)[:3000])
+        return
+    confirm_only = False
+    slot = ""
+    if args[0] == "--confirm-only":
+        confirm_only = True
+        args = args[1:]
+    if args[0] == "--slot":
+        slot = "-" + args[1]
+        args = args[2:]
+    deliver, letter, prop = args[0], args[1], args[2]
+    extra = args[3:]
     mid = "%s-%s" % (prop, letter)
     out = "/verif/seeded/%s" % mid
     os.makedirs(out, exist_ok=True)
     diff = os.path.join(deliver, "%s.diff" % letter)
     demo = os.path.join(deliver, "demo_%s.rs" % letter)
     meta = {"id": mid, "property": prop, "source": "independent sub-agent given only the property text and a scratch worktree", "ran": []}
-    wt = "/tmp/eval-wt"
+    wt = "/tmp/eval-wt" + slot
     sh("git -C /repo worktree remove --force %s" % wt)
     shutil.rmtree(wt, ignore_errors=True)
     rc, o = sh("git -C /repo worktree add -q --detach %s HEAD" % wt)
     if rc != 0:
         print(o); sys.exit(2)
     shutil.copy("/repo/rust/Cargo.lock", wt + "/rust/Cargo.lock")
-    env_target = "CARGO_TARGET_DIR=/tmp/eval-target"
+    env_target = "CARGO_TARGET_DIR=/tmp/eval-target" + slot
     try:
         # demo without the change
         shutil.copy(demo, wt + "/rust/src/tests/mutant_demo.rs")
@@ -63,24 +104,8 @@ def main():
     readme = os.path.join(deliver, "README.md")
     if os.path.exists(readme):
         shutil.copy(readme, out + "/author_notes.md")
-    if confirmed:
-        # run the checks against it
-        rc, o = sh("git -C /repo status --porcelain --untracked-files=no")
-        if o.strip():
-            print("refusing: /repo has local modifications:\n" + o); sys.exit(2)
-        rc, o = sh("git -C /repo apply %s" % diff)
-        results = {}
-        try:
-            for p in [prop] + extra:
-                t0 = time.time()
-                rc, o = sh("./check %s --tier quick" % p, cwd="/verif", timeout=3000)
-                viol = [l for l in o.splitlines() if l.startswith("VIOLATION") or l.strip().startswith("observation")]
-                results[p] = {"exit": rc, "detected": rc == 1, "wall_s": round(time.time() - t0, 1), "lines": viol[:12]}
-                meta["ran"].append("./check %s --tier quick with the change applied to /repo: exit %d" % (p, rc))
-        finally:
-            sh("git -C /repo checkout -- .")
-        meta["checks"] = results
-        meta["detected_by"] = [p for p, r in results.items() if r["detected"]]
+    if confirmed and not confirm_only:
+        run_checks(out, meta, [prop] + extra)
     with open(out + "/meta.json", "w") as f:
         json.dump(meta, f, indent=1)
     print(json.dumps({k: meta[k] for k in meta if k not in ("ran",)}, indent=1)[:3000])
